@@ -189,6 +189,26 @@ def _linalg_norm(x, *a, **kw):
     return np.linalg.norm(x, *a, **kw)
 
 
+def _isclose(a, b, rtol=1e-05, atol=1e-08, equal_nan=False, **kw):
+    """numpy's definition |a - b| <= atol + rtol*|b|, kept symbolic (a mask / a SymBool) when either side is symbolic"""
+    kw.pop("like", None)
+    if _symbolic_in(a) or _symbolic_in(b):
+        absf = _elementwise(_u_abs, np.abs)
+        A, B = _obj(a), _obj(b)
+        r = absf(A - B) <= (atol + rtol * absf(B))
+        if isinstance(r, np.ndarray) and r.shape == ():
+            return r.reshape(-1)[0]
+        return r
+    return np.isclose(a, b, rtol=rtol, atol=atol, equal_nan=equal_nan)
+
+
+def _allclose(a, b, rtol=1e-05, atol=1e-08, equal_nan=False, **kw):
+    kw.pop("like", None)
+    if _symbolic_in(a) or _symbolic_in(b):
+        return _all(_isclose(a, b, rtol=rtol, atol=atol, equal_nan=equal_nan))
+    return np.allclose(a, b, rtol=rtol, atol=atol, equal_nan=equal_nan)
+
+
 def install():
     global _installed
     if _installed:
@@ -213,6 +233,8 @@ def install():
     reg("numpy", "asarray", _asarray)
     reg("numpy", "linalg.norm", _linalg_norm)
     reg("numpy", "take", _take)
+    reg("numpy", "isclose", _isclose)
+    reg("numpy", "allclose", _allclose)
     for name in ("zeros", "ones", "zeros_like", "ones_like", "stack", "concatenate", "copy", "clone", "reshape", "tile",
                  "atleast_1d", "atleast_2d", "array", "sum", "transpose", "eye", "diag", "empty", "full", "sort",
                  "swapaxes", "ravel", "squeeze", "expand_dims", "cumsum", "prod", "max", "min", "arange", "linspace"):
